@@ -24,7 +24,7 @@ Under(p, d) == IsPrefixP(d, p)               \* p = d or p below d (segment-wise
 StrictlyUnder(p, d) == Under(p, d) /\ p # d
 ProperPrefixP(a, b) == Len(a) < Len(b) /\ SubSeq(b, 1, Len(a)) = a
 
-IsAbsT(toks) == toks # <<>> /\ toks[1] = ""
+IsAbsT(toks) == Len(toks) >= 2 /\ toks[1] = ""        \* <<"">> spells the empty string, <<"","">> spells "/"
 NoOps(t) == \A i \in 1..Len(t) : t[i] \in {"", "."}
 HasDotDot(t) == \E i \in 1..Len(t) : t[i] = ".."
 
